@@ -17,6 +17,9 @@ def run_one(case, acc, evaluate, monitors_factory=None, sim_kwargs=None, extra_r
         monitors = monitors + [O.Tracer()]
     kw = dict(sim_kwargs or {})
     kw.setdefault("rng", random.Random(case.get("sim_seed", 0)))
+    if case.get("index", 0) % 4 == 3 and "hash_funcs" not in kw:
+        # every 4th case pairs providers with different hash algorithms (hashes of the two sides are incomparable)
+        kw["hash_funcs"] = (None, lambda b: hashlib.sha256(b).digest())
     obs, sim = R.run_case(case, monitors=monitors, sim_kwargs=kw, keep_sim=True, pre=pre, qcap=qcap, on_crash=on_crash)
     try:
         if count:
